@@ -2,6 +2,7 @@
 """Confirm a sub-agent's seeded change in its own scratch worktree (never in /repo):
 
   tools_confirm.py C05            # worktree /tmp/wt-C05, output /verif/seeded/C05-agent/
+  tools_confirm.py C05 --round 2  # worktree /tmp/wt2-C05, output /verif/seeded/C05-agent2/
 
 With the change applied: the tree builds, the 7 gtest ctest binaries pass and
 `bash tests/tests.sh` reports 0 failures, and seed_out/demo.sh exits non-zero.
@@ -36,8 +37,9 @@ def build_and_test(wt):
 
 def main():
     pid = sys.argv[1]
-    wt = "/tmp/wt-" + pid
-    dst = "/verif/seeded/%s-agent" % pid
+    rnd = sys.argv[3] if len(sys.argv) > 3 and sys.argv[2] == "--round" else ""
+    wt = "/tmp/wt%s-%s" % (rnd, pid)
+    dst = "/verif/seeded/%s-agent%s" % (pid, rnd)
     os.makedirs(dst, exist_ok=True)
     for f in os.listdir(wt + "/seed_out"):
         p = os.path.join(wt, "seed_out", f)
